@@ -11,6 +11,8 @@ func init() {
 	vpRegister("VPH_C12_access", VPH_C12_access)
 	vpRegister("VPH_C12_connection", VPH_C12_connection)
 	vpRegister("VPH_C12_access_as_sent", VPH_C12_access_as_sent)
+	vpRegister("VPH_C12_auth_none", VPH_C12_auth_none)
+	vpRegister("VPH_C12_recreated", VPH_C12_recreated)
 }
 
 func VPH_C12_access() {
@@ -243,4 +245,117 @@ func VPH_C12_connection() {
 	want |= vpIteU32(o&2 != 0, ACCESS3_MODIFY|ACCESS3_EXTEND, 0)
 	want &= mask
 	vpAssert(granted == want, "second-caller-judged-as-itself")
+}
+
+// vpAccessWant: the bits the statement's UNIX rule grants (before the export's read-only cut is
+// applied by the caller of this helper: ro is passed in).
+func vpAccessWant(euid uint32, isOwner, inGroup bool, perm uint32, isDir, ro bool, mask uint32) uint32 {
+	class := vpIteU32(isOwner, (perm>>6)&7, vpIteU32(inGroup, (perm>>3)&7, perm&7))
+	class = vpIteU32(euid == 0, 7, class)
+	r, w, x := class&4 != 0, class&2 != 0, class&1 != 0
+	var want uint32
+	want |= vpIteU32(r, ACCESS3_READ, 0)
+	want |= vpIteU32(vpAnd(isDir, x), ACCESS3_LOOKUP, 0)
+	want |= vpIteU32(x, ACCESS3_EXECUTE, 0)
+	want |= vpIteU32(vpAnd(w, !ro), ACCESS3_MODIFY|ACCESS3_EXTEND, 0)
+	want |= vpIteU32(vpAnd(vpAnd(w, !ro), isDir), ACCESS3_DELETE, 0)
+	return want & mask
+}
+
+// vpCallAs sends one NFS call through HandleCall under the given credential.
+func vpCallAs(env *vpEnv, proc uint32, cred RPCCredential, args []byte) *RPCReply {
+	call := &RPCCall{Header: RPCMsgHeader{Xid: 5, MsgType: RPC_CALL, RPCVersion: 2, Program: NFS_PROGRAM, Version: NFS_V3, Procedure: proc}, Credential: cred}
+	reply, herr := env.h.HandleCall(call, bytes.NewReader(args), &AuthContext{ClientIP: "127.0.0.1", ClientPort: 700, Credential: &call.Credential})
+	vpAssert(vpAnd(herr == nil, reply != nil), "reply")
+	return reply
+}
+
+// VPH_C12_auth_none: a caller that sends AUTH_NONE is nobody (65534/65534, no auxiliary groups)
+// under every squash mode; ACCESS through the real HandleCall decides for that identity.
+func VPH_C12_auth_none() {
+	fs := vpNewFS()
+	n := fs.addFile("/f", 10)
+	isDir := vpBool("isdir")
+	if isDir {
+		n.kind = vpKDir
+	}
+	perm := vpU32("perm") & 07777
+	n.perm = perm
+	ro := vpBool("ro")
+	env := vpServer(fs, ExportOptions{ReadOnly: ro, Squash: []string{"none", "root", "all", ""}[vpChoose("squash", 0, 3)]})
+	h := env.handleFor("/f")
+	node, ok := env.h.lookupNode(h)
+	vpAssume(ok)
+	fuid, fgid := vpU32("fuid"), vpU32("fgid")
+	node.attrs.Uid, node.attrs.Gid = fuid, fgid
+	env.clearCaches()
+	mask := vpU32("mask")
+	var b vpBuf
+	reply := vpCallAs(env, NFSPROC3_ACCESS, RPCCredential{Flavor: AUTH_NONE, Body: []byte{}}, b.fh(h).u32(mask).Bytes())
+	vpAssert(reply.Status == MSG_ACCEPTED, "caller-admitted")
+	rd := &vpRd{b: vpReplyBytes(reply)}
+	vpAssert(rd.u32() == NFS_OK, "status-ok")
+	_, follows := rd.postOp()
+	vpAssert(follows, "attrs-follow")
+	granted := rd.u32()
+	want := vpAccessWant(65534, fuid == 65534, fgid == 65534, perm, isDir, ro, mask)
+	vpObserve("granted", granted)
+	vpObserve("want", want)
+	vpAssert(granted == want, "auth-none-is-judged-as-nobody")
+}
+
+// VPH_C12_recreated: the object was removed and made again (by another caller) since its handle
+// was first issued: ACCESS is decided against the object that is there now - the owner and group
+// the CREATE reply reported for it, the mode the backend has - whichever of the two handles (the
+// old one or the one CREATE returned) the caller presents, not against the removed object's owner.
+func VPH_C12_recreated() {
+	fs := vpNewFS()
+	fs.addDir("/d")
+	fs.addFile("/d/f", 10).perm = 0600
+	env := vpServer(fs, ExportOptions{})
+	hd := env.handleFor("/d")
+	hOld := env.handleFor("/d/f")
+	node, ok := env.h.lookupNode(hOld)
+	vpAssume(ok)
+	ouid, ogid := vpU32("old-uid"), vpU32("old-gid")
+	node.attrs.Uid, node.attrs.Gid = ouid, ogid
+	root := RPCCredential{Flavor: AUTH_SYS, Body: vpAuthSysBody(1, "h", 0, 0, nil)}
+	var r vpBuf
+	rr := &vpRd{b: vpReplyBytes(vpCallAs(env, NFSPROC3_REMOVE, root, r.fh(hd).str("f").Bytes()))}
+	vpAssert(rr.u32() == NFS_OK, "removed")
+	// made again by somebody else, with a mode of their choosing
+	cuid, cgid := vpU32("creator-uid"), vpU32("creator-gid")
+	vpAssume(cuid != 0)
+	perm := vpU32("perm") & 0777
+	var c vpBuf
+	cr := &vpRd{b: vpReplyBytes(vpCallAs(env, NFSPROC3_CREATE, RPCCredential{Flavor: AUTH_SYS, Body: vpAuthSysBody(1, "h", cuid, cgid, nil)},
+		c.fh(hd).str("f").u32(0).sattr(&vpSattr{setMode: true, mode: perm}).Bytes()))}
+	vpAssume(cr.u32() == NFS_OK) // whether this caller may create in /d is not the subject
+	vpAssert(cr.u32() == 1, "handle-follows")
+	hNew := (&vpRd{b: cr.opaque()}).u64()
+	made, described := cr.postOp() // the new object as the server describes it to the creator
+	vpAssert(described, "new-object-attributes-follow")
+	h := hNew
+	if vpBool("present-the-old-handle") {
+		h = hOld
+	}
+	wuid, wgid := vpU32("euid"), vpU32("egid")
+	mask := vpU32("mask")
+	var b vpBuf
+	reply := vpCallAs(env, NFSPROC3_ACCESS, RPCCredential{Flavor: AUTH_SYS, Body: vpAuthSysBody(1, "h", wuid, wgid, nil)}, b.fh(h).u32(mask).Bytes())
+	rd := &vpRd{b: vpReplyBytes(reply)}
+	st := rd.u32()
+	if h == hOld && hOld != hNew && st != NFS_OK {
+		return // refusing the handle of the removed object is fine
+	}
+	vpAssert(st == NFS_OK, "status-ok")
+	pa, follows := rd.postOp()
+	vpAssert(follows, "attrs-follow")
+	granted := rd.u32()
+	vpReach("answered")
+	vpAssert(vpAnd(pa.uid == made.uid, pa.gid == made.gid), "same-owner-as-the-create-reply-said")
+	want := vpAccessWant(wuid, wuid == made.uid, wgid == made.gid, fs.nodes["/d/f"].perm, false, false, mask)
+	vpObserve("granted", granted)
+	vpObserve("want", want)
+	vpAssert(granted == want, "decided-against-the-object-there-now")
 }
